@@ -42,3 +42,19 @@ Definition own_tokens (o : ores unit) : option nat :=
   option_map (fun s' => length (cown s')) (ores_st o).
 Definition snap_tokens (s : snap) : nat :=
   length (filter (fun h : N * edge => is_inner_edge (snd h)) (s_handles s)).
+
+(** the harness stores a result in a handle slot (`slots.insert(dst, f)`): the function
+    that was in the slot is dropped *)
+Definition own_put (s : snap) (o : ores unit) (old : option ref) : ores unit :=
+  match o with
+  | OOk s' c r =>
+    match old with
+    | Some e =>
+      match o_drop (s_terms s) 0 s' e with
+      | Some s'' => OOk s'' c r
+      | None => OStuck
+      end
+    | None => o
+    end
+  | _ => o
+  end.
